@@ -34,14 +34,20 @@ static bool same_bits(double a, double b) { return std::memcmp(&a, &b, sizeof(do
 
 static void mutate_solve_options(Rng& rng, SolverConfig& c, std::string& what)
 {
-    switch (rng.range(0, 6)) {
+    switch (rng.range(0, 7)) {
     case 0: c.maxIterations = rng.pick({1, 2, 3, 5, 150, 150}); what = "maxIterations"; break;
-    case 1: c.rel_tol = rng.pick({1e-4, 1e-6, 1e-8, 1e-10}); what = "relativeTolerance"; break;
-    case 2: c.abs_tol = rng.pick({1e-6, 1e-8, 1e-10}); what = "absoluteTolerance"; break;
+    case 1: c.rel_tol = rng.pick({1e-4, 1e-6, 1e-8, 1e-10, -1.0}); what = c.rel_tol > 0 ? "relativeTolerance" : "relativeTolerance-disabled"; break;
+    case 2: c.abs_tol = rng.pick({1e-6, 1e-8, 1e-10, -1.0}); what = c.abs_tol > 0 ? "absoluteTolerance" : "absoluteTolerance-disabled"; break;
     case 3: c.norm = rng.range(0, 2); what = "norm"; break;
     case 4: c.cycle = rng.range(0, 2); what = "cycle"; break;
     case 5: c.pre = rng.range(1, 2); c.post = rng.range(1, 2); what = "smoothing-steps"; break;
-    default: c.fmg_iters = rng.range(0, 3); c.fmg_cycle = rng.range(0, 2); what = "fmg-cycle-iterations"; break;
+    case 6: c.fmg_iters = rng.range(0, 3); c.fmg_cycle = rng.range(0, 2); what = "fmg-cycle-iterations"; break;
+    default: // both tolerances off: a fixed number of cycles, no norm is computed at all
+        c.rel_tol = -1.0;
+        c.abs_tol = -1.0;
+        c.maxIterations = rng.pick({2, 3, 5});
+        what = "both-tolerances-disabled";
+        break;
     }
 }
 static void mutate_setup_options(Rng& rng, SolverConfig& c, std::string& what)
